@@ -142,6 +142,9 @@ func (fr *Frame) step(in ssa.Instruction, cond T, st *State) T {
 			vc.declareFun(fn, []Sort{SInt}, SInt)
 			b := app(SInt, fn, t)
 			fr.env[i] = b
+		} else if s := structOf(i.X.Type()); s != nil && s.NumFields() == 0 {
+			// value of an empty struct type boxed in an interface: a constant per type
+			fr.env[i] = I(int64(500000 + vc.eng.typeID(i.X.Type())))
 		} else {
 			r := vc.fresh("iface", SInt)
 			vc.assert(Lt(I(0), r))
@@ -384,13 +387,20 @@ func (fr *Frame) binop(i *ssa.BinOp, cond T) Val {
 	case token.SUB:
 		return vc.name("sub", wrap(Sub(x, y), rt))
 	case token.MUL:
-		return vc.name("mul", wrap(app(SInt, "*", x, y), rt))
+		return vc.name("mul", wrap(Mul(x, y), rt))
 	case token.QUO:
 		// Go truncated division; divisor zero panics (path treated as unconstrained)
 		vc.eng.needTdiv = true
+		if !isLiteralTerm(y) {
+			// symbolic divisor: uninterpreted quotient/remainder tied by a = q*b + r (prelude axiom)
+			return vc.name("quo", wrap(app(SInt, "sdiv", x, y), rt))
+		}
 		return vc.name("quo", wrap(app(SInt, "tdiv", x, y), rt))
 	case token.REM:
 		vc.eng.needTdiv = true
+		if !isLiteralTerm(y) {
+			return vc.name("rem", app(SInt, "smod", x, y))
+		}
 		return vc.name("rem", app(SInt, "tmod", x, y))
 	case token.LSS:
 		return Lt(x, y)
@@ -742,6 +752,10 @@ func (vc *VC) cardAxioms() {
 	}
 	vc.declareFun("card", []Sort{SArrIB}, SInt)
 	vc.sigs = append(vc.sigs, "(assert (= (card ((as const (Array Int Bool)) false)) 0))")
+	// cardinality facts: non-negative; zero means empty; positive means some member (witness cardw)
+	vc.declareFun("cardw", []Sort{SArrIB}, SInt)
+	vc.sigs = append(vc.sigs, "(assert (forall ((d (Array Int Bool))) (! (and (>= (card d) 0) (=> (> (card d) 0) (select d (cardw d)))) :pattern ((card d)))))")
+	vc.sigs = append(vc.sigs, "(assert (forall ((d (Array Int Bool)) (q Int)) (! (=> (= (card d) 0) (not (select d q))) :pattern ((card d) (select d q)))))")
 }
 
 func (fr *Frame) mapUpdate(i *ssa.MapUpdate, st *State) {
